@@ -157,6 +157,11 @@ func (u *unit) queryStage(o *oblig, extra []string, withModel, ground bool, stag
 		goal = o.goalSk
 	}
 	body.WriteString("(assert (not " + goal + "))\n")
+	if len(u.implAxioms) > 0 && strings.Contains(body.String(), "|impl_") {
+		for _, a := range u.implAxioms {
+			body.WriteString("(assert " + a + ")\n")
+		}
+	}
 	txt := body.String()
 	used := map[string]bool{}
 	for _, m := range symRe.FindAllString(txt, -1) {
